@@ -315,7 +315,24 @@ func c16ts(c *Ctx) {
 			derived = "parent.New(time options) without a name"
 			c.R.Add("cases_through_an_anonymous_child_made_with_time_options", 1)
 		}
+		// the logger may be the process's default logger while the application calls the package-level Reset() (which
+		// restores the package's level and flags): the logger's own time options are no business of that call
+		if r.P(10) {
+			savedDef, savedFlags := slog.Default(), slog.GetFlags()
+			slog.SetDefault(lg)
+			slog.Reset()
+			slog.SetFlags(savedFlags)
+			slog.SetDefault(savedDef)
+			lg.SetLevel(slog.AlwaysLevel)
+			c.R.Add("cases_whose_logger_was_the_default_during_a_package_Reset", 1)
+		}
 		ts := c16instant(r, zones)
+		if r.P(20) {
+			// the record right before it on the same logger carries an instant a little LATER (records that were queued and
+			// arrive out of order): every record shows its own instant
+			lg.WriteThru(bg, slog.InfoLevel, ts.Add(time.Duration(r.Range(1, 999))*time.Millisecond), thePC, "the previous record of this logger, a few hundred milliseconds later", nil)
+			c.R.Add("cases_right_after_a_record_with_a_slightly_later_instant", 1)
+		}
 		viaHandler := r.P(15)
 		// the record may carry attributes that are instants themselves, one of them under a key called time: the
 		// record's timestamp is still the record's instant
